@@ -305,7 +305,7 @@ func postInline(fw *formatWriter, source []byte, cursor *commonmark.Cursor) {
 	case commonmark.LinkKind:
 		fw.s("]")
 		if ref := child.LinkReference(); ref != "" {
-			if isShortcutLinkOrImage(child) {
+			if isShortcutLinkOrImage(child) && !needsEscapes(source, child) {
 				// Turn shortcut links into collapsed links.
 				fw.s("[]")
 			} else {
@@ -375,6 +375,31 @@ func isShortcutLinkOrImage(inline *commonmark.Inline) bool {
 		}
 	}
 	return true
+}
+
+// needsEscapes reports whether the link text is written differently
+// than it is in the source, so that it cannot serve as the link label.
+func needsEscapes(source []byte, link *commonmark.Inline) bool {
+	for i, n := 0, link.ChildCount(); i < n; i++ {
+		child := link.Child(i)
+		// Everything but text is copied from the source.
+		if child.Kind() == commonmark.TextKind {
+			span := child.Span()
+			for j := span.Start; j < span.End; j++ {
+				if !strings.ContainsRune(`\[]*_-+=<>&#~`+"`", rune(source[j])) {
+					continue
+				}
+				backslashes := 0
+				for j-backslashes > 0 && source[j-backslashes-1] == '\\' {
+					backslashes++
+				}
+				if backslashes%2 == 0 {
+					return true
+				}
+			}
+		}
+	}
+	return false
 }
 
 const codeBlockIndentLimit = 4
